@@ -205,7 +205,7 @@ class SqlImpl(TableImpl):
     # some backends need to do casting to ensure the correct type
     @classmethod
     def compile_lit(cls, lit: LiteralCol):
-        if types.without_const(lit.dtype()).is_float():
+        if lit.val is not None and types.without_const(lit.dtype()).is_float():
             if math.isnan(lit.val):
                 return cls.nan()
             elif math.isinf(lit.val):
